@@ -167,6 +167,7 @@ def r1_term_rendering(R) -> None:
     rows = _rows(g, strict=False)
     got_rows: Dict[str, bool] = {}
     for (r, atoms, v, binds) in rows:
+        v = g._inline_pure_calls(v)  # a lookup moved into a one-expression helper is read through
         tsets = [(_type_set(a), truth) for (a, truth, _tn) in atoms]
         pos_sets = [ts for (ts, truth) in tsets if ts is not None and truth]
         isstr = any(_isinstance_of(a, 'self.index_') == 'str' and truth for (a, truth, _tn) in atoms)
@@ -394,6 +395,13 @@ def r3_one_template(R) -> None:
     if not (isinstance(core, ast.Call) and text(core.func) == 'term_re.finditer' and len(core.args) == 1):
         raise Unknown(f'{f.q}: placeholder loop iterates `{text(it)}`')
     arg = core.args[0]
+    # the text that is tokenised is the statement as given: nothing rewrites it first
+    if isinstance(arg, ast.Name):
+        defs_ = f.lf.defs_reaching(lp.id, arg.id)
+        rewritten = [d_ for d_ in defs_ if d_ != PARAM]
+        R.check(not rewritten and arg.id in f.fi.params(), f.q, 'text-as-written:' + arg.id, 'the statement is tokenised as written (no rewriting of the text before the terms are cut)',
+                f'`{arg.id}` is rewritten (`{f.cfg.nodes[rewritten[0]].label()[:70] if rewritten else ""}`) before it is tokenised: notation the grammar does not define would be '
+                f'turned into terms (e.g. a call `abs(-2)` read as a lag)', where=f.where(f.cfg.nodes[rewritten[0]]) if rewritten else f.fi.where)
     if terms_src is not None:
         targ = terms_src[1].args[0]
         same_text = isinstance(arg, ast.Name) and isinstance(targ, ast.Name) and arg.id == targ.id \
